@@ -95,3 +95,16 @@ Proof.
     rewrite Z.mod_mul in H by discriminate. vm_compute in H. discriminate.
   - vm_compute. repeat split; try reflexivity; discriminate.
 Qed.
+
+From Texel Require Import Index.ProofsGen.
+From Texel.Gen Require Import PointIndexGen.
+
+(** ** tie G2: the address computation (floor division) and the pixel extent/centroid REGENERATED from
+    pointindex.go on this run are the model's *)
+Theorem C08_source_tie :
+  (forall g p, 0 < gres g -> gen_InsertPoint_coord (ix_of g) p = deepestCoord g p) /\
+  (forall g l x y, 0 <= gres g -> (l <= gdeep g)%nat ->
+     gen_getQuadrantExtentAndCentroid (ix_of g) (Z.of_nat l) x y (ext_tuple (gext g))
+     = (ext_tuple (quadExtent g l x y), quadCentroid g l x y)).
+Proof. split; [exact gen_InsertPoint_coord_spec | exact gen_getQuadrantExtentAndCentroid_spec]. Qed.
+Print Assumptions C08_source_tie.
